@@ -188,6 +188,11 @@ def all_jobs():
                   props=['C16'], pretty='bloc::ComplexCTORExpression::parse', canaries=['normal', 'exceptional'], unwind=8, bounded_inputs=True,
                   unwind_why='argument list of at most 2 expressions (stub of Parser::pop yields at most 5 tokens), one candidate constructor',
                   structs=DEFAULT_STRUCTS + [STD_STRING, 'bloc::Context', 'bloc::ComplexCTORExpression', 'bloc::PLUGGED_MODULE', 'bloc::Token', 'bloc::ParseError', 'bloc::PluginManager', 'PLUGIN_CTOR', 'PLUGIN_INTERFACE', 'PLUGIN_TYPE']))
+    mg = '_ZN4bloc16INCLUDEStatement10loadSourceERNS_6ParserERNS_7ContextE'
+    J.append(dict(id='include_loadSource', src='blocc/statement_include.cpp', contract='include_load.c', enforce=mg, roots=[mg], replace=[VCALL_VALUE], cut=[VCALL_VALUE, RTE_CTOR, RTE_CTOR_S],
+                  props=['C16'], pretty='bloc::INCLUDEStatement::loadSource', canaries=['exceptional'], unwind=3,
+                  unwind_why='the statement loop of an included file is unreachable under the precondition (untrusted context)',
+                  structs=DEFAULT_STRUCTS + [STD_STRING, 'bloc::Context', 'bloc::INCLUDEStatement', 'bloc::Parser', 'bloc::ParseError', 'bloc::Token']))
     mg = '_ZN4bloc15IMPORTStatement5parseERNS_6ParserERNS_7ContextE'
     J.append(dict(id='import_parse', src='blocc/statement_import.cpp', contract='import_parse.c', enforce=mg, roots=[mg], replace=[], cut=['_ZN4bloc9StatementD2Ev'],
                   props=['C16'], pretty='bloc::IMPORTStatement::parse', canaries=['normal', 'exceptional'],
